@@ -37,10 +37,40 @@ var c06Policy = map[string]string{
 	"ShowAuthTokenHandler": "webui", "SendAuthDocumentHandler": "webui", "idpOpenIDCAuthorizationHandler": "webui",
 	"usersHandler": "admin", "addUserHandler": "admin", "deleteUserHandler": "admin", "generateBootstrapOTP": "admin", "roleRequetingCertGenHandler": "admin",
 	"refreshRoleRequestingCertGenHandler": "ipcert",
-	"idpOpenIDCTokenHandler": "client", "idpOpenIDCUserinfoHandler": "bearer", "requestAwsRoleCertificateHandler": "presigned",
+	"idpOpenIDCTokenHandler":              "client", "idpOpenIDCUserinfoHandler": "bearer", "requestAwsRoleCertificateHandler": "presigned",
 }
 
 const c06WebUILevel = AuthTypeTOTP | AuthTypeU2F
+
+// c06Shapes is the shared catalogue plus credentials that the daemon itself
+// mints in a multi-step flow: the truth of such a credential is what the flow
+// proves, whatever level the daemon wrote into it.
+func c06Shapes() []vfCredShape {
+	s := vfCredShapes()
+	// CLI cookie released by /showAuthToken -> /sendAuthDocument to a browser
+	// session of the given level: it proves the CLI kind only
+	for _, b := range []struct {
+		name  string
+		level int
+	}{{"totp", AuthTypePassword | AuthTypeTOTP}, {"u2f", AuthTypePassword | AuthTypeU2F}, {"all", AuthTypePassword | AuthTypeTOTP | AuthTypeU2F | AuthTypeKeymasterX509}} {
+		b := b
+		s = append(s, cookieShape("cookie-cli-flow-from-"+b.name, func(w *vfWorld) (string, vfTruth) {
+			browser := w.vfCookie("alice", b.level)
+			r := w.Do(vfReq{Method: "GET", Path: "/showAuthToken", Cookies: []*http.Cookie{browser}}.Build())
+			tok := c06JWSRe.FindString(string(r.Body))
+			if r.Code != 200 || tok == "" {
+				panic(fmt.Sprintf("C06 harness: no CLI token shown to a %s session (status %d)", b.name, r.Code))
+			}
+			r = w.Do(vfReq{Method: "GET", Path: "/sendAuthDocument", Cookies: []*http.Cookie{browser}, Form: url.Values{"token": {tok}, "port": {"12345"}}}.Build())
+			loc, _ := url.Parse(r.Header.Get("Location"))
+			if loc == nil || loc.Query().Get("auth_cookie") == "" {
+				panic(fmt.Sprintf("C06 harness: no CLI cookie released to a %s session (status %d)", b.name, r.Code))
+			}
+			return loc.Query().Get("auth_cookie"), vfTruth{Valid: true, User: "alice", Level: AuthTypeWebauthForCLI, AuthTime: vclock.Now()}
+		}))
+	}
+	return s
+}
 
 func c06World() (*vfWorld, *vfFakes) {
 	users := map[string]string{}
@@ -50,7 +80,7 @@ func c06World() (*vfWorld, *vfFakes) {
 	users[vfAutoUser] = "autobot-pw"
 	w := vfNewWorld(vfOpts{CertBackends: []string{"TOTP"}, WebUIBackends: []string{"TOTP", "U2F"}, EnableTOTP: true, EnableBootstrap: true, AWS: true,
 		AdminUsers: []string{"admin"}, AutomationUsers: []string{vfAutoUser}, AutomationAdmins: []string{"autoadmin"}, CliTokenLifetime: 3600e9, Users: users,
-		DenyFPs: vfDenyList(),
+		DenyFPs:     vfDenyList(),
 		OIDCClients: []OpenIDConnectClientConfig{{ClientID: "cl", ClientSecret: "s3cret", AllowedRedirectDomains: []string{"example.com"}}}})
 	f := w.vfEnableVIP()
 	w.vfEnableOAuth2()
@@ -404,13 +434,13 @@ func c06Run(w *vfWorld, f *vfFakes, shapes map[string]vfCredShape, p c06Point) (
 
 func init() {
 	vfRegister(&vfeng.Check{
-		ID:    "C06",
-		Level: "model_checking",
-		Rule:  "exhaustive product: every route registered on the service mux of the current source (extracted from main() at check time, all conditional registrations enabled) x ~50 credential shapes (each alone and combined with another user's valid cookie) x {GET,POST,PUT,DELETE,HEAD,OPTIONS} x {no origin, same host, foreign Origin, foreign Referer, same host other port, malformed, look-alike foreign hosts (host.evil, evil-host, host@evil) as Origin and Referer} with a well-formed body; observed: admitted identity (access-log seam), row-level digest of both databases, challenge/push maps, fake-VIP ground truth, server-signed material in the response; oracle: universal floor + policy table by handler name + cross-site rule + identity rule",
+		ID:          "C06",
+		Level:       "model_checking",
+		Rule:        "exhaustive product: every route registered on the service mux of the current source (extracted from main() at check time, all conditional registrations enabled) x ~50 credential shapes (each alone and combined with another user's valid cookie) x {GET,POST,PUT,DELETE,HEAD,OPTIONS} x {no origin, same host, foreign Origin, foreign Referer, same host other port, malformed, look-alike foreign hosts (host.evil, evil-host, host@evil) as Origin and Referer} with a well-formed body; observed: admitted identity (access-log seam), row-level digest of both databases, challenge/push maps, fake-VIP ground truth, server-signed material in the response; oracle: universal floor + policy table by handler name + cross-site rule + identity rule",
 		Assumptions: []string{"policy table (handler name -> accepted credential kinds/level) is the specification side, written from the statement; handlers not in the table get the universal floor only and are listed as unclassified", "starting a federated login (pending-state entry) is not a protected effect", "the request body carries no valid client secret, code, bearer token or presigned identity, so client/bearer/presigned endpoints must refuse everything"},
-		Shards: func(tier string) int { return 16 },
+		Shards:      func(tier string) int { return 16 },
 		Run: func(c *vfeng.Ctx) {
-			shapeList := vfCredShapes()
+			shapeList := c06Shapes()
 			shapes := map[string]vfCredShape{}
 			for _, s := range shapeList {
 				shapes[s.Name] = s
@@ -461,7 +491,7 @@ func init() {
 				return false, err.Error()
 			}
 			shapes := map[string]vfCredShape{}
-			for _, s := range vfCredShapes() {
+			for _, s := range c06Shapes() {
 				shapes[s.Name] = s
 			}
 			w, f := c06World()
